@@ -48,6 +48,8 @@ def cases(tier, seed):
         for rule in ('int', 'int', 'float', 'table'):
             out.append(dict(gen='run', klass=klass, rule=rule, sub=core.subseed('C02', seed, k), must=True))
             k += 1
+    for j, klass in enumerate(['CPAReverse', 'CPAAttack', 'DPAReverse', 'SNRReverse']):
+        out.append(dict(gen='run', klass=klass, rule='int', frame_kind=7, sub=core.subseed('C02f', seed, j), must=True))
     rs = np.random.default_rng(core.subseed('C02r', seed))
     n_rand = 500 if tier == 'quick' else 12000
     w = np.array([5 if c in CHEAP else 1 for c in CLASSES], dtype=float)
@@ -58,8 +60,22 @@ def cases(tier, seed):
 
 
 # ---------------------------------------------------------------------------------------------------------
-def _frame(rng, T):
-    k = int(rng.integers(7))
+def _frame(rng, T, kind=None):
+    k = int(rng.integers(8)) if kind is None else kind
+    if k == 7:
+        # an index list whose end points span exactly its length although it is neither sorted nor free of repetitions
+        if T < 3:
+            k = 3
+        else:
+            m = int(rng.integers(3, T + 1))
+            a0 = int(rng.integers(0, T - m + 1))
+            mid = rng.permutation(np.arange(a0 + 1, a0 + m - 1)).tolist()
+            if len(mid) >= 2 and rng.random() < 0.3:
+                mid[0] = mid[-1]
+            ix = [a0] + mid + [a0 + m - 1]
+            if len(mid) == 1:
+                ix = [a0 + m - 1, a0 + 1, a0] if rng.random() < 0.5 else [a0, a0 + m - 1, a0 + 1][:3]
+            return (ix if rng.random() < 0.5 else np.array(ix)), ix
     if k == 0:
         return None, list(range(T))
     if k == 1:
@@ -150,7 +166,7 @@ def run_case(case):
     klass, rule = case['klass'], case['rule']
     attack = klass.endswith('Attack')
     N = int(rng.choice([1, 2, 3, 5, 7, 12, 20, 33, 64, 100, 130]))
-    T = int(rng.integers(1, 9))
+    T = int(rng.integers(1, 9)) if case.get('frame_kind') != 7 else int(rng.integers(4, 10))
     sdt = ['uint8', 'int8', 'int16', 'float32', 'float64', 'int32'][int(rng.integers(6))]
     if klass.startswith(('CPA', 'DPA')) and rng.random() < 0.1:
         sdt = 'float16'
@@ -168,7 +184,7 @@ def run_case(case):
     v = rng.integers(0, 256, (N, W)).astype('uint8')
     tid = np.arange(N, dtype='int64').reshape(N, 1)
     ths = scared.traces.read_ths_from_ram(samples=samples, v=v, tid=tid)
-    frame, fidx = _frame(rng, T)
+    frame, fidx = _frame(rng, T, kind=case.get('frame_kind'))
     Xf = samples[:, frame if frame is not None else ...]
     chain, cdesc = _chain(rng, Xf.shape[1])
     if mia_fine:
